@@ -8,6 +8,9 @@ import re
 import sys
 
 HOME = os.path.dirname(os.path.dirname(os.path.abspath(__file__)))
+import subprocess
+
+HEAD = subprocess.run(["git", "-C", "/repo", "rev-parse", "--short", "HEAD"], capture_output=True, text=True).stdout.strip()
 BEGIN, END = "<!-- SEEDED_TABLE_BEGIN -->", "<!-- SEEDED_TABLE_END -->"
 
 
@@ -59,6 +62,7 @@ def main():
         if broken:
             problems.append(f"{meta['id']}: check(s) {broken} exited with a harness error")
         meta["caught_by"] = caught
+        meta["what_i_ran"]["checks_evaluated_at_repo_commit"] = HEAD
         meta["what_i_ran"]["checks_with_patch_applied"] = {
             c: {"command": f"VERIF_REPO=<worktree with patch> ./check {c}", **v} for c, v in sorted(r["checks"].items())}
         json.dump(meta, open(mp, "w"), indent=1)
